@@ -463,7 +463,7 @@ class Kernel:
                 # (birth order, pid) of every tracked worker - birth order is the kernel's, not the arbiter's own age counter
                 tracked = sorted((getattr(k.procs.get(wp), "seq", 0), wp) for wp, w in dict.items(k.arbiter.WORKERS)) if k.arbiter is not None else []
                 k.kills.append((k.now, pid, int(sig), tracked, p.alive))
-                k.trace.append(("kill", pid, int(sig)))
+                k.trace.append(("kill", pid, int(sig), k.now))
                 if p.alive:
                     p.signals.append(int(sig))
                     k.react(p, sig)
